@@ -175,7 +175,10 @@ def closed_stop(r):
     if not (isinstance(r, ast.Raise) and r.exc is not None and "StopIteration" in norm(r.exc)):
         return False
     h = next((a_ for a_ in _anc(r) if isinstance(a_, ast.ExceptHandler)), None)
-    pos = [norm(v_) for t_, b_ in guards(r) if b_ for v_ in flatten_boolop(t_, ast.And)]
+    from tiv.astutil import enclosing_func
+    from tiv.sem import trace as _tr
+    fn_ = enclosing_func(r)
+    pos = [norm(_tr(fn_, v_) if isinstance(fn_, ast.FunctionDef) else v_) for t_, b_ in guards(r) if b_ for v_ in flatten_boolop(t_, ast.And)]
     neg = [t_ for t_, b_ in guards(r) if not b_]
     if "self._closed" not in pos or neg:
         return False
@@ -183,7 +186,8 @@ def closed_stop(r):
     if h is None:
         return not others
     catches = h.type is None or any(norm(e) in ("AttributeError", "Exception", "BaseException") for e in (h.type.elts if isinstance(h.type, ast.Tuple) else [h.type]))
-    return catches and all(h.name and x in (f"isinstance({h.name}, AttributeError)", f"type({h.name}) is AttributeError") for x in others)
+    # (besides the AttributeError test, conjuncts that only exclude other exception classes narrow the same case)
+    return catches and all(h.name and (x in (f"isinstance({h.name}, AttributeError)", f"type({h.name}) is AttributeError") or x.startswith(f"not isinstance({h.name}, ")) for x in others)
 
 
 
